@@ -72,6 +72,22 @@ def run(ctx):
         raw = any(t[0] in ('LENDELIM', 'SIZED', 'SLICE', 'FIXED', 'SKIP') for t in toks)
         ctx.ob('SKIPPAIR', 'ignored_any/%s/skipped-not-converted' % kind, raw and not conv, short_loc(igb.span),
                'ignoring a %s takes its bytes without converting them to a number: %s (cell: %s)' % (kind, raw and not conv, sorted({t[0] for t in toks})))
+    # a decimal's bytes are length-delimited only when it annotates `bytes`; over a `fixed` they are the fixed's size with no
+    # length in front: each raw read of an ignored decimal sits under the matching test of the decimal's representation
+    repr_ok, n_raw = True, 0
+    for variants, r, toks in igc:
+        if 'Decimal' not in variants:
+            continue
+        for tok, tb, tbb, t in toks:
+            if tb is not igb or tok[0] not in ('LENDELIM', 'SIZED', 'SLICE', 'SKIP'):
+                continue
+            n_raw += 1
+            want = 'Bytes' if tok[0] == 'LENDELIM' else 'Fixed'
+            under = [taken[1] for d, si, taken in dominating_switches(igb, tbb) if si.get('kind') == 'enum' and (si.get('adt') or '').endswith('DecimalRepr') and taken[0] == 'variant']
+            if not any(want in u and len(u) == 1 for u in under):
+                repr_ok = False
+    ctx.ob('SKIPPAIR', 'ignored_any/Decimal/raw-read-matches-representation', repr_ok and n_raw >= 1 or not any(t[0] in ('LENDELIM', 'SIZED', 'SLICE', 'SKIP') for t in cell.get('Decimal', [])), short_loc(igb.span),
+           'raw reads of an ignored decimal: %d; each length-delimited one under repr = Bytes and each sized one under repr = Fixed: %s' % (n_raw, repr_ok))
     toks = cell.get('Union', [])
     keeps = any(t[0] == 'DISC' for t in toks) and [t[1] for t in toks if t[0] == 'FWD'] == ['deserialize_ignored_any']
     ctx.ob('SKIPPAIR', 'ignored_any/Union/keeps-ignoring', keeps, short_loc(igb.span),
